@@ -7,7 +7,8 @@ assembly (blfasm.h) and therefore be identical in every schedule."""
 from checks import schedcheck, sessions as S
 
 ASSUME = [
-    "scheduling points at synchronisation operations suffice (no unsynchronised shared accesses: C11)",
+    "scheduling points at synchronisation operations suffice (no unsynchronised shared accesses: C11); stage P adds points right "
+    "after every release so that data published before it is written shows as a wrong result here as well",
     "sequential consistency; no spurious wake-ups",
     "the read-session input is assembled by harness/blfasm.h (reference assembler) from the codecs' own encodings of the objects",
 ]
@@ -38,6 +39,11 @@ def stages(tier):
                            full_sessions(1, (16, 128), S.containers, (1, 3), 2),
                    share=0.35, what="read-all and write-all sessions; tiny buffers so that every stage blocks; compression levels 0 and 6; "
                                     "restore-point trailer on/off; every single deviation from the default schedule"))
+    # the window between a release and the thread's next synchronisation operation: a stage that publishes a position and
+    # fills in the bytes after unlocking is only visible when the other thread can run right after the release
+    pr = [x + " postrelease=1" for x in full_sessions(1, (64,), lambda b: (32, 64, 65, 256), (1, 2), 2 if quick else 3, levels=(0,), rps=(0,))]
+    st.append(dict(label="P: complete sessions, bound 1, scheduling points also right after every unlock / wait return", harness="h_session",
+                   variant="sched", configs=pr, share=0.15))
     if quick:
         c = full_sessions(2, (64,), lambda b: (32, 64, 65, 256), (1, 2), 2)
     else:
